@@ -877,6 +877,135 @@ def sec_listing(ds, ft):
     return out
 
 
+
+# ----------------------------------------------------------------------------------------------- the write plan of save_impl
+
+def strip_map_err(stmt, what):
+    """`<call>.map_err(<anything balanced>)?;` -> `<call>`   (how the I/O error is wrapped is not translated)"""
+    k = stmt.find(".map_err(")
+    if k < 0:
+        raise NotFound(what + ": effect without map_err(..)?: " + stmt[:60])
+    end = balanced(stmt, k + len(".map_err"), "(", ")")
+    if stmt[end:] != "?;":
+        raise NotFound(what + ": effect not followed by `?;`: " + stmt[end:][:30])
+    return stmt[:k]
+
+
+def statements(block):
+    """split canonical text into top-level statements (`..;` or `for ..{..}`)"""
+    out, pos = [], 0
+    while pos < len(block):
+        if block.startswith("for", pos) and re.match(r"for\b", block[pos:]):
+            b = block.index("{", pos)
+            _, end = block_at(block, b)
+            out.append(block[pos:end])
+            pos = end
+            continue
+        d, k = 0, pos
+        while k < len(block):
+            c = block[k]
+            if c in "([{":
+                d += 1
+            elif c in ")]}":
+                d -= 1
+            elif c == ";" and d == 0:
+                break
+            k += 1
+        if k >= len(block):
+            raise NotFound("statement without `;`: " + block[pos:pos + 50])
+        out.append(block[pos:k + 1])
+        pos = k + 1
+    return out
+
+
+def plan_block(ft, body, store, dirs):
+    """the `if !self.<store>.is_empty() { .. }` block of save_impl -> (effects before the loop, effects per entry)"""
+    what = "save_impl, %s block" % store
+    m = re.search(r"if!self\.%s\.is_empty\(\)\{" % store, body)
+    if not m:
+        raise NotFound(what + ": guard")
+    block, _ = block_at(body, m.end() - 1)
+    env = {"path": "(tC t)"}        # symbolic path values: Rust variable -> Lean text (component list)
+    pre, item = [], []
+
+    def effects(stmts, env, acc, key, data_src):
+        data_var = None
+        for st in stmts:
+            mm = re.fullmatch(r"let (\w+)=(\w+)\.join\((\w+)\);", st)
+            if mm and mm.group(2) in env:
+                base, arg = env[mm.group(2)], mm.group(3)
+                if arg in dirs and mm.group(2) == "path":
+                    env[mm.group(1)] = "(sub t \"%s\")" % dirs[arg]
+                elif arg == key:
+                    env[mm.group(1)] = "(joinRel %s kb.1)" % base
+                else:
+                    raise NotFound(what + ": join with " + arg)
+                continue
+            mm = re.fullmatch(r"let (\w+)=(\w+)\.parent\(\)\.unwrap\(\);", st)
+            if mm and mm.group(2) in env:
+                env[mm.group(1)] = "%s.dropLast" % env[mm.group(2)]
+                continue
+            mm = re.fullmatch(r"let (\w+)=(\w+)\.expect\(\"[^\"]*\"\);", st)
+            if mm and mm.group(2) == data_src and data_src is not None:
+                data_var = mm.group(1)
+                continue
+            if st.startswith(("fs::", "close_already::fs::", "std::fs::")):
+                call = strip_map_err(st, what)
+                mm = re.fullmatch(r"(?:std::)?fs::create_dir_all\(&?(\w+)\)", call)
+                if mm and mm.group(1) in env:
+                    acc.append(".mkdirAll %s" % env[mm.group(1)])
+                    continue
+                mm = re.fullmatch(r"(?:std::)?fs::create_dir\(&?(\w+)\)", call)
+                if mm and mm.group(1) in env:
+                    acc.append(".mkdir %s" % env[mm.group(1)])
+                    continue
+                mm = re.fullmatch(r"(?:close_already::|std::)?fs::write\(&?(\w+),&\*(\w+)\)", call)
+                if mm and mm.group(1) in env and mm.group(2) == data_var and data_var is not None:
+                    acc.append(".write %s kb.2" % env[mm.group(1)])
+                    continue
+                raise NotFound(what + ": unknown effect " + call[:60])
+            raise NotFound(what + ": unknown statement " + st[:60])
+
+    loops = 0
+    for st in statements(block):
+        mm = re.match(r"for\((\w+),(\w+)\)in self\.%s\.iter\(\)\{" % store, st)
+        if mm:
+            loops += 1
+            if loops > 1:
+                raise NotFound(what + ": two loops")
+            inner, end = block_at(st, mm.end() - 1)
+            if st[end:]:
+                raise NotFound(what + ": text after the loop")
+            effects(statements(inner), dict(env), item, mm.group(1), mm.group(2))
+        elif loops:
+            raise NotFound(what + ": statements after the entry loop: " + st[:50])
+        else:
+            effects([st], env, pre, None, None)
+    if loops != 1:
+        raise NotFound(what + ": no entry loop")
+    return pre, item
+
+
+def sec_savePlan(ds, ft):
+    impl_body = fn_parts(ft, "save_impl")[1]
+    dirs = {}
+    for c in ("DATA_DIR", "IMAGES_DIR"):
+        mm = re.search(r"\b(?:static|const)\s+" + c + r"\s*:\s*&(?:'static\s+)?str\s*=\s*\"([A-Za-z0-9_.\-]*)\"\s*;", ft)
+        if not mm:
+            raise NotFound("constant " + c)
+        dirs[c] = mm.group(1)
+    out = []
+    for store, name in (("data", "Data"), ("images", "Images")):
+        pre, item = plan_block(ft, impl_body, store, dirs)
+        out += ["/-- effects of the `%s` block of `save_impl` before its entry loop -/" % store,
+                "def plan%sPre (t : APath) : List (Eff β) :=" % name, "  [" + ", ".join(pre) + "]",
+                "/-- effects of one turn of the entry loop, in source order -/",
+                "def plan%sItem (t : APath) (kb : Path.P × β) : List (Eff β) :=" % name, "  [" + ", ".join(item) + "]",
+                "/-- the whole block: nothing for an empty store (`if !self.%s.is_empty()`) -/" % store,
+                "def plan%s (t : APath) (items : List (Path.P × β)) : List (Eff β) :=" % name,
+                "  if items.isEmpty then [] else plan%sPre t ++ items.flatMap (plan%sItem t)" % (name, name), ""]
+    return out[:-1]
+
 # ----------------------------------------------------------------------------------------------- file assembly
 
 HEADER = """import Norad.Model.C16
@@ -945,6 +1074,24 @@ def run (st : State) : List Op → State
 end C16.Gen
 """
 
+OUT2 = os.path.join(ROOT, "lean", "Norad", "Generated", "StorePlanGen.lean")
+PINNED2 = os.path.join(ROOT, "tools", "pinned", "StorePlanGen.lean")
+HEADER2 = """import Norad.Model.FontSave
+/-!
+GENERATED by tools/extract_store_ops.py from `Font::save_impl` (src/font.rs) on every `./check C16` run.  Do not edit.
+The two blocks that write the stores (`if !self.data.is_empty() { .. }`, `if !self.images.is_empty() { .. }`), statement by
+statement: path bindings are evaluated symbolically, every file-system call becomes one effect of `FontSave.Eff`; how an I/O
+error is wrapped (`map_err`) is not translated.  Pinned copy: tools/pinned/StorePlanGen.lean.  Core Lean only.
+-/
+set_option linter.unusedVariables false
+namespace C16.PlanGen
+open FontSave AbsFS
+variable {β : Type}
+
+"""
+FOOTER2 = "end C16.PlanGen\n"
+SECTIONS2 = [("savePlan", sec_savePlan)]
+
 SECTIONS = [("validate", sec_validate), ("cell", sec_cell), ("mutators", sec_mutators), ("readers", sec_readers),
             ("listing", sec_listing)]
 
@@ -956,8 +1103,12 @@ def split_sections(text):
     return out
 
 
-def generate(repo):
-    pinned = split_sections(open(PINNED).read()) if os.path.exists(PINNED) else {}
+def generate(repo, sections=None, header=None, footer=None, pinned_path=None):
+    sections = SECTIONS if sections is None else sections
+    header = HEADER if header is None else header
+    footer = FOOTER if footer is None else footer
+    pinned_path = PINNED if pinned_path is None else pinned_path
+    pinned = split_sections(open(pinned_path).read()) if os.path.exists(pinned_path) else {}
     err = None
     try:
         ds = strip_comments(open(os.path.join(repo, "src", "datastore.rs")).read())
@@ -966,7 +1117,7 @@ def generate(repo):
         ds = ft = None
         err = ex
     parts, fell_back = [], []
-    for name, f in SECTIONS:
+    for name, f in sections:
         try:
             if ds is None:
                 raise NotFound(str(err))
@@ -977,20 +1128,26 @@ def generate(repo):
             body = pinned[name]
             fell_back.append("%s (%s)" % (name, ex))
         parts.append("-- BEGIN %s\n%s-- END %s\n" % (name, body, name))
-    return HEADER + "\n".join(parts) + "\n" + FOOTER, fell_back
+    return header + "\n".join(parts) + "\n" + footer, fell_back
 
 
 def run():
     repo = os.environ.get("VERIF_REPO", "/repo").rstrip("/") or "/repo"
     text, fell_back = generate(repo)
-    old = open(OUT).read() if os.path.exists(OUT) else None
-    if old != text:
-        with open(OUT, "w") as f:
-            f.write(text)
-    ptext = open(PINNED).read() if os.path.exists(PINNED) else None
+    text2, fell_back2 = generate(repo, SECTIONS2, HEADER2, FOOTER2, PINNED2)
+    changed = differs = False
+    for out, pin, tx in ((OUT, PINNED, text), (OUT2, PINNED2, text2)):
+        old = open(out).read() if os.path.exists(out) else None
+        if old != tx:
+            changed = True
+            with open(out, "w") as f:
+                f.write(tx)
+        ptext = open(pin).read() if os.path.exists(pin) else None
+        differs = differs or (ptext is not None and ptext != tx)
+    fell_back = fell_back + fell_back2
     return {"extraction": "pinned" if fell_back else "full", "pinned_sections": fell_back, "source": repo,
-            "changed_since_last_run": old != text, "differs_from_pinned_copy": ptext is not None and ptext != text,
-            "table": os.path.relpath(OUT, ROOT)}
+            "changed_since_last_run": changed, "differs_from_pinned_copy": differs,
+            "table": os.path.relpath(OUT, ROOT) + " " + os.path.relpath(OUT2, ROOT)}
 
 
 if __name__ == "__main__":
@@ -1002,4 +1159,5 @@ if __name__ == "__main__":
         import shutil
         os.makedirs(os.path.dirname(PINNED), exist_ok=True)
         shutil.copy(OUT, PINNED)
+        shutil.copy(OUT2, PINNED2)
         print("pinned")
